@@ -116,14 +116,24 @@ fn run_variant<const N: usize, P: Pad>(
         }
         let _ = before_next;
         for (k, id) in out.events.iter().zip(out.event_ids.iter()) {
-            if *id == dead_id || *id == live_tok.id || k.starts_with("garbage_touched") {
-                let c = ctx.cur_case.clone();
-                ctx.violation(
-                    "C04",
-                    format!("op={}|ncap={}|filling={:?}|touched_injected_copy:{}", o.name(), ncls(N), std::mem::discriminant(&filling), k.split('@').next().unwrap_or("")),
-                    format!("{:?} touched the {} planted in an unoccupied slot ({}); case={}", o, if *id == dead_id { "byte-copy of a destroyed element" } else if *id == live_tok.id { "byte-copy of a live element held elsewhere" } else { "garbage bytes" }, k, c),
-                );
-            }
+            // No fault is in play here, so every ledger event means that the crate touched or
+            // destroyed bytes that are not a live element of the buffer: a planted copy, garbage, or
+            // the stale image of an element that was moved out or already destroyed.
+            let what = if *id == dead_id {
+                "the byte-copy of a destroyed element planted in an unoccupied slot"
+            } else if *id == live_tok.id {
+                "the byte-copy of a live element held elsewhere, planted in an unoccupied slot"
+            } else if k.starts_with("garbage_touched") {
+                "garbage bytes"
+            } else {
+                "the stale image of an element that is no longer in the buffer (moved out or destroyed)"
+            };
+            let c = ctx.cur_case.clone();
+            ctx.violation(
+                "C04",
+                format!("op={}|ncap={}|touched_non_live_slot:{}", o.name(), ncls(N), k.split('@').next().unwrap_or("")),
+                format!("{:?} touched {} ({}); case={}", o, what, k, c),
+            );
         }
         let cont: Vec<String> = out.post.iter().map(|(id, v)| format!("{}={}", lab.label(*id), v)).collect();
         trace.push(format!("{}|{}|[{}]|ev{:?}", o.name(), lab.ret(&out.ret), cont.join(","), out.events));
@@ -141,12 +151,11 @@ fn run_variant<const N: usize, P: Pad>(
     let evs = flush_events_ids(ctx, op.name(), N, "after_case", None);
     if !evs.is_empty() {
         trace.push(format!("late-events{:?}", evs.iter().map(|x| &x.0).collect::<Vec<_>>()));
-        for (k, id) in &evs {
-            if *id == dead_id || *id == live_id {
-                let c = ctx.cur_case.clone();
-                ctx.violation("C04", format!("op={}|ncap={}|touched_injected_copy:{}", op.name(), ncls(N), k), format!("an injected byte-copy was destroyed through the buffer ({}); case={}", k, c));
-            }
+        for (k, _id) in &evs {
+            let c = ctx.cur_case.clone();
+            ctx.violation("C04", format!("op={}|ncap={}|touched_non_live_slot:{}", op.name(), ncls(N), k.split('@').next().unwrap_or("")), format!("bytes that are not a live element were touched or destroyed ({}); case={}", k, c));
         }
+        let _ = live_id;
     }
     Some((trace, poked))
 }
